@@ -75,6 +75,12 @@ def join (a b : Path) : Path :=
   | .root :: _ => b
   | _ => a ++ b
 
+/-- `Path::has_root` (`is_relative` is its negation). -/
+def isAbs (p : Path) : Bool :=
+  match p with
+  | .root :: _ => true
+  | _ => false
+
 /-- `Path::starts_with` (whole components). -/
 def startsWith (p base : Path) : Bool := base.isPrefixOf p
 
@@ -188,7 +194,12 @@ def isFile (b : Backend) (t : Tree) (p : Path) : Bool :=
     | some _ => true
     | none => false
 
-/-- resources.rs `Source::is_directory`. Memory: some *other* key starts with the location. -/
+/-- resources.rs `is_within` (Memory, since fix C11-F1m): the current directory normalises to `.`
+and contains every relative key. -/
+def isWithin (k loc : Path) : Bool :=
+  if loc = [.cur] then !isAbs k else startsWith k loc
+
+/-- resources.rs `Source::is_directory`. Memory: some *other* key lies within the location. -/
 def isDirectory (b : Backend) (t : Tree) (p : Path) : Bool :=
   if b.fsys then
     if p = [] then false else
@@ -197,7 +208,7 @@ def isDirectory (b : Backend) (t : Tree) (p : Path) : Bool :=
     | _ => false
   else
     let loc := normalize p
-    t.any fun ke => ke.1 ≠ loc && startsWith ke.1 loc
+    t.any fun ke => ke.1 ≠ loc && isWithin ke.1 loc
 
 /-- resources.rs `Source::walk` (files only), in the tree's own order; the real enumeration
 order (HashMap / read_dir) is an arbitrary permutation of this list. -/
@@ -211,7 +222,7 @@ def walk (b : Backend) (t : Tree) (loc : Path) : List Path :=
     let l := normalize loc
     t.filterMap fun ke =>
       let k := normalize ke.1
-      if startsWith k l then some k else none
+      if isWithin k l then some k else none
 
 /-- resources.rs `Resources::collect_work`. -/
 def collectWorkRes (b : Backend) (t : Tree) (loc : Path) : List Path :=
@@ -244,6 +255,10 @@ def collectDirLoop (nin out : Path) : List Path → List Item → Except Collect
     | none => .error (.stripPrefix source)
     | some rel => collectDirLoop nin out rest (addSourceIfMissing acc source (some (join out rel)))
 
+/-- worker_tree.rs `input_prefix` (since fix C11-F1): the current directory normalises to `.` but
+a normalised source never starts with a `.` component: its prefix is the empty path. -/
+def srcBase (nin : Path) : Path := if nin = [.cur] then [] else nin
+
 /-- worker_tree.rs `WorkerTree::collect_work`; `order` is the enumeration produced by the walk
 (the caller passes any permutation of `collectWorkRes b t (normalize input)`). -/
 def collectWorkFrom (b : Backend) (t : Tree) (input : Path) (output : Option Path)
@@ -262,7 +277,7 @@ def collectWorkFrom (b : Backend) (t : Tree) (input : Path) (output : Option Pat
         | none => .error .noFileName
         | some fn => .ok (addSourceIfMissing [] input (some (join out [.normal fn])))
     else
-      collectDirLoop (normalize input) out order []
+      collectDirLoop (srcBase (normalize input)) out order []
   | none =>
     .ok (order.foldl (fun acc s => addSourceIfMissing acc s none) [])
 
@@ -411,11 +426,6 @@ def plain (p : Path) : Bool :=
   | .root :: r => r.all Comp.isNormal
   | r => r.all Comp.isNormal
 
-def isAbs (p : Path) : Bool :=
-  match p with
-  | .root :: _ => true
-  | _ => false
-
 def fileKeys (t : Tree) : List Path :=
   t.filterMap fun ke => if ke.2.isFile then some ke.1 else none
 
@@ -423,33 +433,49 @@ def fileKeys (t : Tree) : List Path :=
 def prefixFree (ps : List Path) : Bool :=
   ps.all fun p => ps.all fun q => !properPrefix p q
 
-/-- keys are clean, non-empty and unique; a memory tree holds files only; a file-system tree is
-keyed by absolute paths and its files are prefix-free -/
+/-- the component stack `normalize` builds (before the empty → `.` replacement) -/
+def stem (p : Path) : Path := (p.foldl normStep []).reverse
+
+/-- where a location is looked up, as a stack: `resolve b (p ++ rel) = rstem b p ++ rel` for
+`Normal` components `rel` -/
+def rstem (b : Backend) (p : Path) : Path :=
+  if b.fsys then (if isAbs p then stem p else stem (b.cwd ++ p)) else stem p
+
+/-- keys are unique; a memory tree holds files only, under non-empty normalised keys (what
+`Source::write` stores); the regular files of a file-system tree are prefix-free -/
 def treeOk (b : Backend) (t : Tree) : Bool :=
-  t.all (fun ke => plain ke.1 && ke.1 ≠ []) &&
   (t.map (·.1)).Nodup &&
-  (if b.fsys then plain b.cwd && isAbs b.cwd && t.all (fun ke => isAbs ke.1) && prefixFree (fileKeys t)
-   else t.all (fun ke => ke.2.isFile))
+  (if b.fsys then prefixFree (fileKeys t)
+   else t.all (fun ke => ke.2.isFile && normalize ke.1 = ke.1 && ke.1 ≠ []))
+
+/-- every regular file below `A` continues with `Normal` components only -/
+def relsNormal (t : Tree) (A : Path) : Bool :=
+  (fileKeys t).all fun k => !A.isPrefixOf k || (k.drop A.length).all Comp.isNormal
 
 /-- neither location lies inside the other -/
 def noOverlap (a c : Path) : Bool := !a.isPrefixOf c && !c.isPrefixOf a
 
-/-- H11: the region in which the full property is proved.
-Directory-mode runs: the tree is well formed, the normalised input and the output are clean
-non-empty paths, and the output location is the input itself (in place), absent (in place) or
-disjoint from it. Single-file runs (`is_file(input)`) only need nothing (one item). -/
+/-- H11: the region in which the full property is proved (widened after fixes C11-F1/F1m: the
+input may normalise to `.`, may start with `..`, need not be clean; the output is arbitrary).
+With `sb` the source prefix and `A` / `B` the places where input and output are looked up:
+the tree is well formed, `sb` is a fixed point of normalisation, the files below `A` continue
+with `Normal` components, and (directory mode with an output) the output is the input itself
+or neither contains the other. Single-file runs with an output need nothing more (one item). -/
 def h11 (b : Backend) (t : Tree) (input : Path) (output : Option Path) : Bool :=
   treeOk b t &&
   (let nin := normalize input
-   plain nin && nin ≠ [] &&
+   let sb := srcBase nin
+   let A := rstem b sb
+   stem sb = sb && relsNormal t A &&
+   (if b.fsys then A ≠ [] && (nin ≠ [.cur] || !(fileKeys t).contains A) else true) &&
    match output with
    | none => true
    | some out =>
      isFile b t input ||
-     (plain out && out ≠ [] &&
-      (resolve b out = resolve b nin || noOverlap (resolve b nin) (resolve b out))))
+     (let B := rstem b out
+      B ≠ [] && (B = A || noOverlap A B)))
 
-/-- defect class F-dot: the input normalises to `.` -/
+/-- the input normalises to `.` (the region of the former findings C11-F1 / C11-F1m) -/
 def classDot (input : Path) : Bool := normalize input = [.cur]
 
 /-- defect class F-overlap: directory-mode run whose output lies strictly inside the input or
@@ -459,8 +485,8 @@ def classOverlap (b : Backend) (t : Tree) (input : Path) (output : Option Path) 
   | none => false
   | some out =>
     !isFile b t input &&
-    resolve b out ≠ resolve b (normalize input) &&
-    !noOverlap (resolve b (normalize input)) (resolve b out)
+    rstem b out ≠ rstem b (srcBase (normalize input)) &&
+    !noOverlap (rstem b (srcBase (normalize input))) (rstem b out)
 
 /-! ### static independence of two work items -/
 
